@@ -236,6 +236,9 @@ def eval_expr(e, env: Env):
             return list(range(*args))
         if nm == "int":
             return int(args[0])
+        if nm in ("max", "min") and args:
+            vals = args[0] if len(args) == 1 and isinstance(args[0], (list, tuple)) else args
+            return max(vals) if nm == "max" else min(vals)
         if nm == "zip":
             return list(zip(*args))
         if nm == "dict":
